@@ -253,6 +253,8 @@ def run(db, chk) -> None:
             hv = host["value"]
             cases = hv[2] if hv[0] == "mapf" and len(hv) == 3 else hv
             TS = T.col(DF, "ts")
+            if T.as_cases(cases) is not None:
+                cases = ("cases", tuple(T.as_cases(cases)))
             if cases[0] != "cases" or len(cases[1]) != 2:
                 chk.ob("C12.R1-host-rule", "host value is a two-way decision (inside a step / not)", None if T.has_opaque(hv) else False, where, found=T.show(hv)[:300])
             else:
